@@ -1,6 +1,6 @@
 (** C05 -- operator calculus denotes the pointwise / matrix construction. *)
 From Coq Require Import List Bool Ring QArith Qcanon.
-From SV Require Import LinAlg.Mat LinAlg.CQ LinAlg.MExpr LinAlg.CQExpr LinAlg.RepStack.
+From SV Require Import LinAlg.Mat LinAlg.CQ LinAlg.MExpr LinAlg.CQExpr LinAlg.RepStack LinAlg.RepStack3.
 Import ListNotations.
 
 (** For every commutative ring with involution K (R, C, Q, Q[i] ...), every dimension n, every
@@ -210,3 +210,16 @@ Theorem C05_gen_circular_convolve_shortcuts :
   forall (Sc V X : Type) (SS : ScSig Sc) (DS : DiagSig Sc V) (LX : LinSig Sc X) (F : X -> V) (Fi : V -> X), (forall h1 h2 v : V, @dg_mul Sc V DS (@dg_add Sc V DS h1 h2) v = @dg_add Sc V DS (@dg_mul Sc V DS h1 v) (@dg_mul Sc V DS h2 v)) -> (forall h1 h2 v : V, @dg_mul Sc V DS (@dg_sub Sc V DS h1 h2) v = @dg_sub Sc V DS (@dg_mul Sc V DS h1 v) (@dg_mul Sc V DS h2 v)) -> (forall (h : V) (c : Sc) (v : V), @dg_mul Sc V DS (@dg_muls Sc V DS h c) v = @dg_smul Sc V DS c (@dg_mul Sc V DS h v)) -> (forall (h : V) (c : Sc) (v : V), @dg_mul Sc V DS (@dg_divs Sc V DS h c) v = @dg_divs Sc V DS (@dg_mul Sc V DS h v) c) -> (forall u v : V, Fi (@dg_add Sc V DS u v) = @l_add Sc X LX (Fi u) (Fi v)) -> (forall u v : V, Fi (@dg_sub Sc V DS u v) = @l_sub Sc X LX (Fi u) (Fi v)) -> (forall (c : Sc) (v : V), Fi (@dg_smul Sc V DS c v) = @l_smul Sc X LX c (Fi v)) -> (forall (c : Sc) (v : V), Fi (@dg_divs Sc V DS v c) = @l_sdiv Sc X LX (Fi v) c) -> forall (h1 h2 : V) (c : Sc) (a1 a2 : X -> X) (x : X), @cc Sc V X DS F Fi (@C05_Circ.__add___gen Sc V DS h1 h2) x = @l_eval X X (@C05_Linop.__add___gen Sc X X LX LX {| l_eval := @cc Sc V X DS F Fi h1; l_adj := a1 |} {| l_eval := @cc Sc V X DS F Fi h2; l_adj := a2 |}) x /\ @cc Sc V X DS F Fi (@C05_Circ.__sub___gen Sc V DS h1 h2) x = @l_eval X X (@C05_Linop.__sub___gen Sc X X LX LX {| l_eval := @cc Sc V X DS F Fi h1; l_adj := a1 |} {| l_eval := @cc Sc V X DS F Fi h2; l_adj := a2 |}) x /\ @cc Sc V X DS F Fi (@C05_Circ.__mul___gen Sc V DS h1 c) x = @l_eval X X (@C05_Linop.__mul___gen Sc X X SS LX LX {| l_eval := @cc Sc V X DS F Fi h1; l_adj := a1 |} c) x /\ @cc Sc V X DS F Fi (@C05_Circ.__truediv___gen Sc V DS h1 c) x = @l_eval X X (@C05_Linop.__truediv___gen Sc X X SS LX LX {| l_eval := @cc Sc V X DS F Fi h1; l_adj := a1 |} c) x.
 Proof. exact (@GenConv.circ_forward_is_generic). Qed.
 Print Assumptions C05_gen_circular_convolve_shortcuts.
+
+(** replicated stack over an operand that changes the rank, replicate axis at any position of the input and of the
+    output array (outer part / k / inner part of bi resp. bo entries): row o is row j of A applied to slice r *)
+Theorem C05_replicated_stack_general : forall k m n ao bo ai bi (A : cmat) (x : cvec) o,
+  (0 < k)%nat -> (0 < ao)%nat -> (0 < bo)%nat -> (0 < ai)%nat -> (0 < bi)%nat -> m = (ao * bo)%nat -> n = (ai * bi)%nat ->
+  length A = m -> Forall (fun row => length row = n) A -> length x = (k * n)%nat -> (o < k * m)%nat ->
+  let '(r, j) := rep_split3 k bo o in
+  nth o (c_mv (rep_mat3 k m n bo bi A) x) c0 = c_dot (nth j A []) (rep_slice3 k n bi r x).
+Proof. exact rep_mat3_acts. Qed.
+Print Assumptions C05_replicated_stack_general.
+Theorem C05_replicated_stack_general_extends : forall k m n (A : cmat), rep_mat3 k m n m n A = rep_mat k m n 0 0 A.
+Proof. exact rep_mat3_first. Qed.
+Print Assumptions C05_replicated_stack_general_extends.
